@@ -424,7 +424,49 @@ def r05_3(ctx: Ctx, closure: Dict[str, Func]) -> None:
                   "a parse error in the constructor does not close the file handle and re-raise")
 
 
+def r05_4(ctx: Ctx) -> None:
+    """attacker-controlled exponent: the KDF round count 2**NumCyclesPower must be bounded before the key is derived."""
+    f = ctx.prog.func("compressor", "AESDecompressor.__init__")
+    cfg = cfg_of(f.node)
+    ck = [c for c in q.calls(f) if attr_tail(c) == "calculate_key"]
+    ctx.floor("R05.4", len(ck), 1, "calculate_key call in AESDecompressor.__init__")
+    for c in ck:
+        cyc = c.args[1] if len(c.args) > 1 else None
+        ctx.need(isinstance(cyc, ast.Name), "cycles argument of calculate_key is not a local name")
+        cn = q.node_for(f, c)
+        bound = None
+        for n in cfg.nodes:
+            a = n.ast
+            tests = []
+            if n.kind == "stmt" and isinstance(a, ast.Assert):
+                tests.append((a.test, True, n))
+            elif n.kind == "test":
+                # `if cycles > K: raise`  -> on the false edge cycles <= K
+                fe = next((s for s in n.succ if s.kind == "false"), None)
+                te = next((s for s in n.succ if s.kind == "true"), None)
+                if te is not None and q.branch_always_raises(cfg, te) and fe is not None and cfg.dominates(fe, cn):
+                    tests.append((a, False, n))
+            for t, pol, node in tests:
+                if not (isinstance(t, ast.Compare) and len(t.ops) == 1 and isinstance(t.left, ast.Name) and t.left.id == cyc.id):
+                    continue
+                if not cfg.dominates(node, cn):
+                    continue
+                try:
+                    k = ctx.ce.eval(t.comparators[0], "compressor")
+                except NotConst:
+                    continue
+                op = t.ops[0]
+                if pol and isinstance(op, (ast.LtE, ast.Lt)):
+                    bound = k if isinstance(op, ast.LtE) else k - 1
+                if not pol and isinstance(op, (ast.Gt, ast.GtE)):
+                    bound = k if isinstance(op, ast.Gt) else k - 1
+        ctx.check(bound is not None and bound <= 30, "R05.4", f, c, f"NumCyclesPower bounded by {bound} before key derivation",
+                  f"the KDF exponent read from the archive reaches calculate_key with bound {bound}: a few header bytes (NumCyclesPower up to 62) start a 2^k-round hash "
+                  "that never finishes in practice", construct="NumCyclesPower bound")
+
+
 def run(ctx: Ctx) -> None:
+    r05_4(ctx)
     closure = read_closure(ctx)
     ctx.extra["closure_size"] = len(closure)
     r05_1(ctx, closure)
